@@ -1,3 +1,416 @@
-/-! # C08 — (stub: property theorems go here; see docs/BUILDING.md) -/
+import PtVerif.Proofs.Core
+import PtVerif.Generated.ElementBase
+/-!
+# C08 — atoms are unique per table and every lookup route returns the same object
+
+Model: `PtVerif.Model.Core` (heap of objects numbered by allocation; `PeriodicTable._element`,
+the table's atom attributes, `Element._isotopes`, `IonSet.ionset` as dictionaries; every method
+of core.py 210-599 written the way it is written) – tied to core.py by the correspondence in
+`harness/ptv/props/C08.py`; `base` is regenerated from `element_base` on every run.
+
+`Reach s` = the states reachable from the empty interpreter by any finite sequence of operations
+(any number of tables, any interleaving).  Not covered: CPython itself (object identity, dict,
+`__getattr__`, pickle/copy calling `__reduce__`) – modelled, checked by the correspondence.
+-/
 namespace PtVerif.C08
+open PtCore
+
+/-- `element_base` as read from core.py by the translator -/
+def base : Base := baseOfRaw PtGen.elementBase
+
+/-! ## facts about the generated table (re-checked against the source on every run) -/
+
+/-- atomic numbers are distinct -/
+theorem base_Z_distinct : (base.map (·.z)).Nodup := by decide +kernel
+
+/-- symbols are distinct, and none is `D` or `T` (the aliases of H[2] and H[3]) -/
+theorem base_symbols_distinct : (base.map (·.symbol)).Nodup := by decide +kernel
+theorem base_DT_free : DTFree base := by
+  have : ∀ r ∈ base, decide (r.symbol ≠ "D" ∧ r.symbol ≠ "T") = true := by decide +kernel
+  intro r hr; exact of_decide_eq_true (this r hr)
+
+/-- names are distinct and none is `deuterium` / `tritium` -/
+theorem base_names_distinct : ((base.map (·.name)) ++ ["deuterium", "tritium"]).Nodup := by decide +kernel
+
+/-- there is a hydrogen row, so `PeriodicTable.__init__` can create D and T -/
+theorem base_has_H : (base.find? (·.symbol = "H")).isSome = true := by decide +kernel
+
+/-! ## the invariant holds in every reachable state -/
+
+/-- states reachable from a fresh interpreter by any operation sequence -/
+def Reach (s : State) : Prop := ∃ ops : List Op, s = run base init ops
+
+theorem inv_init : Inv base init := PtCore.inv_init base
+
+theorem inv_step (s : State) (h : Inv base s) (op : Op) : Inv base (step base s op).1 :=
+  (PtCore.inv_step base_Z_distinct h op).1
+
+/-- lifted to all operation lists -/
+theorem inv_reach {s : State} (h : Reach s) : Inv base s := by
+  obtain ⟨ops, rfl⟩ := h
+  exact inv_run base_Z_distinct ops inv_init
+
+/-- objects are never altered or dropped by later operations -/
+theorem objects_persist (s : State) (h : Inv base s) (op : Op) (i : Nat) (o : Obj)
+    (ho : s.obj i = some o) : (step base s op).1.obj i = some o :=
+  (PtCore.inv_step base_Z_distinct h op).2 i o ho
+
+/-! ## uniqueness and agreement of routes -/
+
+/-- within one table there is one object per (Z, A, charge): two objects that report the same
+    table, number, isotope number and charge are the same object -/
+theorem atoms_unique {s : State} (h : Reach s) {i j : Nat} {k : Key}
+    (hi : s.keyOf i = some k) (hj : s.keyOf j = some k) : i = j :=
+  unique (inv_reach h) hi hj
+
+/-- any two operations – whatever the routes – that return atoms reporting the same key return
+    the same object, no matter what happened in between -/
+theorem routes_agree {s : State} (h : Reach s) (op1 : Op) (between : List Op) (op2 : Op) {i j : Nat}
+    (h1 : (step base s op1).2 = .obj i)
+    (h2 : (step base (run base (step base s op1).1 between) op2).2 = .obj j)
+    {k : Key}
+    (hi : (step base (run base (step base s op1).1 between) op2).1.keyOf i = some k)
+    (hj : (step base (run base (step base s op1).1 between) op2).1.keyOf j = some k) : i = j := by
+  obtain ⟨ops, rfl⟩ := h
+  have hr : Reach (step base (run base (step base (run base init ops) op1).1 between) op2).1 :=
+    ⟨ops ++ op1 :: (between ++ [op2]), by
+      have run_append : ∀ (a c : List Op) (s : State), run base s (a ++ c) = run base (run base s a) c := by
+        intro a; induction a with
+        | nil => intro _ _; rfl
+        | cons x a ih => intro c s; exact ih c _
+      rw [run_append]
+      show _ = run base (step base (run base init ops) op1).1 (between ++ [op2])
+      rw [run_append]; rfl⟩
+  exact atoms_unique hr hi hj
+
+/-! ## the object matches the key used (`key_matches`); bad keys raise (`invalid_raises`) -/
+
+/-- `table[Z]` -/
+theorem key_matches_number {s : State} (h : Reach s) {t : String} {z i : Nat}
+    (hr : (step base s (.getZ t z)).2 = .obj i) : s.keyOf i = some ⟨t, z, none, none⟩ :=
+  getZ_key (inv_reach h) hr
+
+/-- `table.symbol(x)`, `getattr(table, x)`: an atom of this table whose symbol is x -/
+theorem key_matches_symbol {s : State} (h : Reach s) {t x : String} {i : Nat}
+    (hr : (step base s (.symbol t x)).2 = .obj i) :
+    ∃ nm k, s.symName base i = some (x, nm) ∧ s.keyOf i = some k ∧ k.table = t ∧ k.q = none := by
+  simp only [step] at hr
+  cases ha : s.attrs.get? (t, x) with
+  | none => simp [ha] at hr
+  | some j => simp only [ha] at hr; cases hr; exact symName_of_attr (inv_reach h) ha
+
+theorem key_matches_attr {s : State} (h : Reach s) {t x : String} {i : Nat}
+    (hr : (step base s (.attr t x)).2 = .obj i) :
+    ∃ nm k, s.symName base i = some (x, nm) ∧ s.keyOf i = some k ∧ k.table = t ∧ k.q = none := by
+  simp only [step] at hr
+  cases ha : s.attrs.get? (t, x) with
+  | none => simp [ha] at hr
+  | some j => simp only [ha] at hr; cases hr; exact symName_of_attr (inv_reach h) ha
+
+/-- a module attribute (`periodictable.Fe`, `.iron`, `.D`, `.deuterium`; the namespace filled by
+    `define_elements`) holds an element whose symbol or name is the attribute name, or one of the
+    aliased isotopes D / T -/
+theorem key_matches_module_attr {s : State} (h : Reach s) {x : String} {i : Nat}
+    (hr : (step base s (.modAttr x)).2 = .obj i) : NsGood base s x i := by
+  obtain ⟨ops, rfl⟩ := h
+  have hns := nsOK_run base_Z_distinct base_DT_free ops inv_init (nsOK_init base)
+  simp only [step] at hr
+  cases hg : (run base init ops).ns.get? x with
+  | none => simp [hg] at hr
+  | some j =>
+    simp only [hg, Res.obj.injEq] at hr
+    subst hr
+    exact hns x j hg
+
+/-- `table.name(x)`: an atom of this table whose name is x -/
+theorem key_matches_name {s : State} (h : Reach s) {t x : String} {i : Nat}
+    (hr : (step base s (.name t x)).2 = .obj i) :
+    ∃ sym k, s.symName base i = some (sym, x) ∧ s.keyOf i = some k ∧ k.table = t ∧ k.q = none :=
+  (name_key (inv_reach h) base_DT_free (s' := (step base s (.name t x)).1) (by rw [← hr])).2
+
+/-- `table.isotope('A-Sym')`: with `(sym, n)` the symbol and number parsed from the string
+    (`n = 0`: no number given, `n < 0`: malformed) a successful lookup returns an atom of this
+    table; for `n = 0` its symbol is `sym`; otherwise `n > 0`, its isotope number is `n` and it
+    is an isotope of the element with symbol `sym` -/
+theorem key_matches_isotope_string {s : State} (h : Reach s) {t x : String} {i : Nat}
+    (hr : (step base s (.isotope t x)).2 = .obj i) :
+    ∃ k, s.keyOf i = some k ∧ k.table = t ∧ k.q = none ∧
+      ((parseIsotope x).2 = 0 → ∃ nm, s.symName base i = some ((parseIsotope x).1, nm)) ∧
+      ((parseIsotope x).2 ≠ 0 → 0 < (parseIsotope x).2 ∧ k.a = some (parseIsotope x).2.toNat ∧
+        ∃ e nm, s.obj i = some (.isotope e (parseIsotope x).2.toNat) ∧
+          s.symName base e = some ((parseIsotope x).1, nm)) :=
+  (isotope_key (inv_reach h) (s' := (step base s (.isotope t x)).1) (by rw [← hr])).2
+
+/-- `element[A]` -/
+theorem key_matches_isotope {s : State} (h : Reach s) {o a i : Nat}
+    (hr : (step base s (.iso o a)).2 = .obj i) :
+    ∃ t z, s.obj o = some (.element t z) ∧ s.keyOf i = some ⟨t, z, some a, none⟩ :=
+  (iso_key (inv_reach h) (s' := (step base s (.iso o a)).1) (by rw [← hr])).2
+
+/-- `atom.add_isotope(A)` (on an element, or delegated by an isotope / ion) -/
+theorem key_matches_add_isotope {s : State} (h : Reach s) {o a i : Nat}
+    (hr : (step base s (.addIsotope o a)).2 = .obj i) :
+    ∃ e t z, s.elemOf o = some (e, t, z) ∧
+      (step base s (.addIsotope o a)).1.keyOf i = some ⟨t, z, some a, none⟩ :=
+  addIsotope_key (inv_reach h) (s' := (step base s (.addIsotope o a)).1) (by rw [← hr])
+
+/-- `atom.ion[q]`: the owner's key with charge q -/
+theorem key_matches_ion {s : State} (h : Reach s) {o i : Nat} {q : Int}
+    (hr : (step base s (.ion o q)).2 = .obj i) :
+    ∃ w k, s.ionOwner o = some w ∧ s.keyOf w = some k ∧ k.q = none ∧
+      (step base s (.ion o q)).1.keyOf i = some ⟨k.table, k.z, k.a, some q⟩ :=
+  ion_key (inv_reach h) (s' := (step base s (.ion o q)).1) (by rw [← hr])
+
+/-- an atomic number that is not in `element_base` raises `KeyError` -/
+theorem invalid_number_raises {s : State} (h : Reach s) (t : String) {z : Nat}
+    (hz : base.row? z = none) : (step base s (.getZ t z)).2 = .err .key :=
+  getZ_invalid (inv_reach h) hz
+
+/-- a charge that is not in the element's `ions` raises `ValueError` (also through an isotope
+    and through another ion) and creates nothing -/
+theorem invalid_charge_raises {s : State} (h : Reach s) {o w e : Nat} {q : Int} {t : String} {z : Nat}
+    {r : BaseRow} (hw : s.ionOwner o = some w) (hel : s.elemOf w = some (e, t, z))
+    (hrow : base.row? z = some r) (hq : q ∉ r.ions) :
+    step base s (.ion o q) = (s, .err .value) :=
+  ion_invalid (inv_reach h) hw hel hrow hq
+
+/-- an isotope number that the element does not have raises `KeyError` -/
+theorem invalid_isotope_raises (s : State) {o a : Nat} {t : String} {z : Nat}
+    (ho : s.obj o = some (.element t z)) (ha : (s.isosOf o).get? a = none) :
+    step base s (.iso o a) = (s, .err .key) := by
+  simp [step, ho, State.isoGet, ha]
+
+/-- a string whose number part is not an integer, is 0, or that has more than one dash raises -/
+theorem malformed_isotope_string_raises (s : State) (t x : String) (hn : (parseIsotope x).2 < 0) :
+    (step base s (.isotope t x)).2 = .err .value := by
+  simp only [step]
+  generalize parseIsotope x = p at hn ⊢
+  obtain ⟨sym, n⟩ := p
+  simp only at hn ⊢
+  have h0 : n ≠ 0 := by omega
+  split
+  · split
+    · simp [h0, hn]
+    · simp [h0]
+    · rfl
+  · rfl
+
+/-- a symbol that is neither in `element_base` nor `D` / `T` raises `ValueError` -/
+theorem unknown_symbol_raises {s : State} (h : Reach s) (t : String) {x : String}
+    (hx : x ∉ base.map (·.symbol)) (hD : x ≠ "D") (hT : x ≠ "T") :
+    (step base s (.symbol t x)).2 = .err .value := by
+  simp only [step]
+  cases ha : s.attrs.get? (t, x) with
+  | none => rfl
+  | some i =>
+    exfalso
+    have hs := inv_reach h
+    rcases hs.attrSound t x i ha with ⟨z, r, _, hr, hsym⟩ | ⟨hh, a, z, nm, ho, hho, hal⟩
+    · exact hx (List.mem_map.mpr ⟨r, row?_mem hr, hsym⟩)
+    · rcases hs.aliasVals i _ hal with hp | hp
+      · exact hD (congrArg Prod.fst hp)
+      · exact hT (congrArg Prod.fst hp)
+
+/-! ## every route to an element / isotope ends at the same object as plain subscripting -/
+
+/-- a symbol of `element_base` contains no dash: as an 'A-Sym' string it means "no isotope" -/
+theorem base_symbols_parse : ∀ r ∈ base, parseIsotope r.symbol = (r.symbol, 0) := by decide +kernel
+
+/-- `table.symbol(sym)`, `getattr(table, sym)`, `table.isotope(sym)` and `table.name(name)` of a
+    row of `element_base` return the element object recorded with that row's atomic number … -/
+theorem element_routes_number {s : State} (h : Reach s) (t : String) {r : BaseRow} (hr : r ∈ base) {i : Nat} :
+    ((step base s (.symbol t r.symbol)).2 = .obj i → s.obj i = some (.element t r.z)) ∧
+    ((step base s (.attr t r.symbol)).2 = .obj i → s.obj i = some (.element t r.z)) ∧
+    ((step base s (.isotope t r.symbol)).2 = .obj i → s.obj i = some (.element t r.z)) ∧
+    ((step base s (.name t r.name)).2 = .obj i → s.obj i = some (.element t r.z)) := by
+  have hs := inv_reach h
+  refine ⟨?_, ?_, ?_, ?_⟩
+  · intro hres
+    simp only [step] at hres
+    cases ha : s.attrs.get? (t, r.symbol) with
+    | none => simp [ha] at hres
+    | some j => simp only [ha] at hres; cases hres; exact elem_of_attr hs base_symbols_distinct base_DT_free hr ha
+  · intro hres
+    simp only [step] at hres
+    cases ha : s.attrs.get? (t, r.symbol) with
+    | none => simp [ha] at hres
+    | some j => simp only [ha] at hres; cases hres; exact elem_of_attr hs base_symbols_distinct base_DT_free hr ha
+  · intro hres
+    simp only [step, base_symbols_parse r hr] at hres
+    cases ha : s.attrs.get? (t, r.symbol) with
+    | none => simp [ha] at hres
+    | some j =>
+      have ho := elem_of_attr hs base_symbols_distinct base_DT_free hr ha
+      simp only [ha, ho, ↓reduceIte] at hres
+      cases hres; exact ho
+  · intro hres
+    exact elem_of_name hs base_DT_free base_names_distinct hr
+      (s' := (step base s (.name t r.name)).1) (by rw [← hres])
+
+/-- … which is the object `table[Z]` returns: all element routes give one object -/
+theorem element_routes_same_object {s : State} (h : Reach s) (t : String) {r : BaseRow} (hr : r ∈ base)
+    {i j : Nat} (hz : (step base s (.getZ t r.z)).2 = .obj j)
+    (hroute : (step base s (.symbol t r.symbol)).2 = .obj i ∨ (step base s (.attr t r.symbol)).2 = .obj i ∨
+      (step base s (.isotope t r.symbol)).2 = .obj i ∨ (step base s (.name t r.name)).2 = .obj i) :
+    i = j := by
+  have hs := inv_reach h
+  have hj : s.obj j = some (.element t r.z) := by
+    have := getZ_key hs hz
+    obtain ⟨o, ho⟩ := obj_of_keyOf this
+    cases o with
+    | element t' z' => rw [keyOf_element ho] at this; cases this; exact ho
+    | isotope e a => obtain ⟨_, _, _, hk⟩ := keyOf_isotope hs ho; rw [hk] at this; cases this
+    | ion w q =>
+      rcases keyOf_ion hs ho with ⟨_, _, _, hk⟩ | ⟨_, _, _, _, _, _, hk⟩ <;> (rw [hk] at this; cases this)
+  obtain ⟨h1, h2, h3, h4⟩ := element_routes_number (i := i) h t hr
+  have hi : s.obj i = some (.element t r.z) := by
+    rcases hroute with hh | hh | hh | hh
+    · exact h1 hh
+    · exact h2 hh
+    · exact h3 hh
+    · exact h4 hh
+  exact unique_element hs hi hj
+
+/-- `table.isotope('A-Sym')` is `table[Z][A]`: if the string parses to (symbol of row r, A ≠ 0),
+    the object it returns is the object `element[A]` returns for the element `table[r.z]` -/
+theorem isotope_string_same_object {s : State} (h : Reach s) (t x : String) {r : BaseRow} (hr : r ∈ base)
+    (hx : (parseIsotope x).1 = r.symbol) (hn : (parseIsotope x).2 ≠ 0) {e i j : Nat}
+    (he : (step base s (.getZ t r.z)).2 = .obj e)
+    (hj : (step base s (.iso e (parseIsotope x).2.toNat)).2 = .obj j)
+    (hi : (step base s (.isotope t x)).2 = .obj i) : i = j := by
+  have hs := inv_reach h
+  obtain ⟨k, hk, hkt, _, _, hne⟩ := key_matches_isotope_string h hi
+  obtain ⟨_, hka, e', nm, hoi, hsym⟩ := hne hn
+  obtain ⟨t1, z1, hoe', hki⟩ := keyOf_isotope hs hoi
+  rw [hki] at hk; cases hk
+  simp only at hkt; subst hkt
+  -- e' is the element with symbol r.symbol of this table
+  have hz1 : z1 = r.z := by
+    have : s.symName base e' = (base.row? z1).map fun r => (r.symbol, r.name) := by
+      simp [State.symName, State.elemOf, hoe']
+    rw [this] at hsym
+    cases hrow : base.row? z1 with
+    | none => simp [hrow] at hsym
+    | some r' =>
+      simp only [hrow, Option.map_some, Option.some.injEq, Prod.mk.injEq] at hsym
+      have := row_of_symbol base_symbols_distinct hr (row?_mem hrow) (hsym.1.trans hx)
+      subst this
+      have hz := List.find?_some hrow
+      simp only [decide_eq_true_eq] at hz
+      exact hz.symm
+  subst hz1
+  obtain ⟨_, t2, z2, hoe, hkj⟩ := iso_key hs (s' := (step base s (.iso e (parseIsotope x).2.toNat)).1)
+    (by rw [← hj])
+  have hkey := getZ_key hs he
+  rw [keyOf_element hoe] at hkey
+  simp only [Option.some.injEq, Key.mk.injEq, and_true] at hkey
+  obtain ⟨rfl, rfl⟩ := hkey
+  have : e' = e := unique_element hs hoe' hoe
+  subst this
+  exact unique hs hki hkj
+
+/-! ## valid keys succeed -/
+
+theorem tables_complete {s : State} (h : Reach s) : TablesOK base s := by
+  obtain ⟨ops, rfl⟩ := h
+  exact tablesOK_run base_Z_distinct base_symbols_distinct base_DT_free ops (tablesOK_init base)
+
+/-- in every existing table, for every row of `element_base`, lookup by atomic number, by symbol,
+    by attribute, by the symbol as 'A-Sym' string and by name all succeed **and return one and the
+    same object** -/
+theorem element_routes_succeed {s : State} (h : Reach s) {t : String} (ht : t ∈ s.tables) {r : BaseRow}
+    (hr : r ∈ base) :
+    ∃ i, (step base s (.getZ t r.z)).2 = .obj i ∧ (step base s (.symbol t r.symbol)).2 = .obj i ∧
+      (step base s (.attr t r.symbol)).2 = .obj i ∧ (step base s (.isotope t r.symbol)).2 = .obj i ∧
+      (step base s (.name t r.name)).2 = .obj i := by
+  have hs := inv_reach h
+  obtain ⟨i, he, ha⟩ := tables_complete h t ht r hr
+  have ho := hs.elemSound _ _ _ he
+  refine ⟨i, by simp [step, State.getZ, he], by simp [step, ha], by simp [step, ha],
+    by simp [step, base_symbols_parse r hr, ha, ho], ?_⟩
+  -- by name: the search over the elements by increasing Z finds a row named r.name; it is r
+  have hmem : (r.z, i) ∈ s.sortedElems t := ((sortedElems_spec hs t).2 r.z i).mpr he
+  have hrow : base.row? r.z = some r := row?_of_mem base_Z_distinct hr
+  cases hf : (s.sortedElems t).find? (fun zi => (base.row? zi.1).map (·.name) = some r.name) with
+  | none =>
+    have := List.find?_eq_none.mp hf (r.z, i) hmem
+    simp [hrow] at this
+  | some zi =>
+    have hstep : step base s (.name t r.name) = (s, .obj zi.2) := by
+      simp only [step]; rw [hf]
+    have := elem_of_name hs base_DT_free base_names_distinct hr hstep
+    have hi : zi.2 = i := unique_element hs this ho
+    rw [hstep, hi]
+
+/-- a charge listed for the element always yields the ion – through the element, one of its
+    isotopes, or another ion -/
+theorem valid_charge_succeeds {s : State} (h : Reach s) {o w e : Nat} {t : String} {z : Nat} {r : BaseRow}
+    {q : Int} (hw : s.ionOwner o = some w) (hel : s.elemOf w = some (e, t, z))
+    (hrow : base.row? z = some r) (hq : q ∈ r.ions) : ∃ i, (step base s (.ion o q)).2 = .obj i :=
+  ion_total (inv_reach h) hw hel hrow hq
+
+/-- every existing atom pickles / copies back to itself, and restoring changes nothing -/
+theorem pickle_roundtrip_total {s : State} (h : Reach s) {o : Nat} {ob : Obj} (ho : s.obj o = some ob) :
+    step base s (.reduce o) = (s, .obj o) :=
+  reduce_total (inv_reach h) ho
+
+/-! ## iteration -/
+
+/-- `for el in table`: increasing Z, every element of the table exactly once -/
+theorem iter_sorted_nodup {s : State} (h : Reach s) (t : String) :
+    ((s.sortedElems t).map (·.1)).Pairwise (· < ·) ∧
+    ∀ z i, (z, i) ∈ s.sortedElems t ↔ s.elems.get? (t, z) = some i :=
+  sortedElems_spec (inv_reach h) t
+
+/-- `for iso in element`: increasing A, every isotope of the element exactly once -/
+theorem iter_isotopes_sorted_nodup {s : State} (h : Reach s) (e : Nat) :
+    ((s.sortedIsos e).map (·.1)).Pairwise (· < ·) ∧
+    ∀ a i, (a, i) ∈ s.sortedIsos e ↔ (s.isosOf e).get? a = some i :=
+  sortedIsos_spec (inv_reach h) e
+
+/-! ## pickling / copying and changing table -/
+
+/-- `pickle.loads(pickle.dumps(x)) is x` (also `copy`, `deepcopy`: all go through `__reduce__`) -/
+theorem pickle_roundtrip_id {s : State} (h : Reach s) {o i : Nat}
+    (hr : (step base s (.reduce o)).2 = .obj i) : i = o :=
+  reduce_id base_Z_distinct (inv_reach h) (s' := (step base s (.reduce o)).1) (by rw [← hr])
+
+/-- `change_table(atom, T)` is the atom with the same Z, A and charge in T -/
+theorem change_table_same_key {s : State} (h : Reach s) {o i : Nat} {t : String} {k : Key}
+    (hk : s.keyOf o = some k) (hr : (step base s (.changeTable o t)).2 = .obj i) :
+    (step base s (.changeTable o t)).1.keyOf i = some ⟨t, k.z, k.a, k.q⟩ :=
+  changeTable_key (inv_reach h) hk (s' := (step base s (.changeTable o t)).1) (by rw [← hr])
+
+/-! ## non-vacuity: the hypotheses above are met by a concrete reachable state
+
+`s0` = a fresh interpreter after `PeriodicTable("public")`, one isotope added to Fe and two ions
+created; every route returns the object the theorems talk about (one kernel evaluation). -/
+
+def ops0 : List Op := [.newTable "public", .addIsotope 26 56, .ion 26 2, .ion 121 3]
+def s0 : State := run base init ops0
+theorem reach_s0 : Reach s0 := ⟨ops0, rfl⟩
+
+example :
+    (step base s0 (.getZ "public" 26)).2 = .obj 26 ∧
+    (step base s0 (.symbol "public" "Fe")).2 = .obj 26 ∧
+    (step base s0 (.name "public" "iron")).2 = .obj 26 ∧
+    (step base s0 (.name "public" "deuterium")).2 = .obj 119 ∧
+    (step base s0 (.isotope "public" "Fe")).2 = .obj 26 ∧
+    (step base s0 (.attr "public" "Fe")).2 = .obj 26 ∧
+    (step base s0 (.isotope "public" " 56-Fe")).2 = .obj 121 ∧
+    (step base s0 (.isotope "public" "0-Fe")).2 = .err .value ∧
+    (step base s0 (.isotope "public" "D")).2 = .obj 119 ∧
+    (step base s0 (.iso 26 56)).2 = .obj 121 ∧
+    (step base s0 (.ion 26 2)).2 = .obj 122 ∧
+    (step base s0 (.ion 121 3)).2 = .obj 123 ∧
+    (step base s0 (.ion 122 3)).2 = .obj 124 ∧       -- ion of an ion: a new Fe{3+}
+    (step base s0 (.ion 26 9)).2 = .err .value ∧
+    (step base s0 (.reduce 123)).2 = .obj 123 ∧
+    (step base s0 (.changeTable 122 "public")).2 = .obj 122 ∧
+    (step base s0 (.newTable "public")).2 = .err .value ∧
+    s0.keyOf 123 = some ⟨"public", 26, some 56, some 3⟩ ∧
+    (s0.sortedElems "public").length = 119 ∧
+    parseIsotope "56-Fe-" = ("", -1) ∧
+    base.row? 119 = none := by decide +kernel
+
 end PtVerif.C08
